@@ -117,57 +117,68 @@ def scaledValue (hex : Bool) (mant nd : Nat) (dp : Int) : Option Rat :=
       let x : Int := dp - nd
       if x ≥ 0 then some ((mant : Rat) * pow10 x.toNat) else some ((mant : Rat) / pow10 (-x).toNat)
 
+/-- Optional sign of `readFloat`. -/
+def splitSign (s : Bytes) : Bool × Bytes :=
+  match s with
+  | 43 :: r => (false, r)
+  | 45 :: r => (true, r)
+  | r => (false, r)
+
+/-- `i+2 < len(s) && s[i] == '0' && lower(s[i+1]) == 'x'`: `(hex, digits)`. -/
+def hexPrefix (body : Bytes) : Bool × Bytes :=
+  match body with
+  | 48 :: c :: r => if lower20 c = 120 && !r.isEmpty then (true, r) else (false, body)
+  | _ => (false, body)
+
+/-- The optional exponent: `(decimal point, underscores seen, unread rest)`; `none` = syntax error. -/
+def readExp (hex : Bool) (dp1 : Int) (rest : Bytes) : Option (Int × Bool × Bytes) :=
+  match rest with
+  | c :: r =>
+    if lower20 c = (if hex then 112 else 101) then
+      match r with
+      | [] => none
+      | _ =>
+        let (esign, r2) : Int × Bytes := match r with
+          | 43 :: r' => (1, r')
+          | 45 :: r' => (-1, r')
+          | _ => (1, r)
+        match r2 with
+        | d :: _ =>
+          if isDigitB d then
+            let (e, u, r3) := readExpDigits r2 0 false
+            some (dp1 + (e : Int) * esign, u, r3)
+          else none
+        | [] => none
+    else if hex then none else some (dp1, false, rest)
+  | [] => if hex then none else some (dp1, false, rest)
+
+/-- Everything after the mantissa loop of `readFloat`, and the conversion. -/
+def finishParse (s : Bytes) (neg hex : Bool) (st : Mant) (rest : Bytes) : Option F64 :=
+  if !st.sawdigits then none else
+  let dp0 : Int := if st.sawdot then st.dp else st.nd
+  let dp1 : Int := if hex then dp0 * 4 else dp0
+  match readExp hex dp1 rest with
+  | none => none
+  | some (dp, u, rest2) =>
+    if !rest2.isEmpty then none
+    else if (st.underscores || u) && !underscoreOK s then none
+    else
+      match scaledValue hex st.mant st.nd dp with
+      | none => none
+      | some q =>
+        let x := ofRatS neg (if neg then -q else q)
+        if x.isInf then none else some x
+
 /-- `strconv.ParseFloat(s, 64)`; `none` = error (syntax, or range: the value rounds to ±Inf). -/
 def parseFloat (s : Bytes) : Option F64 :=
   match special s with
   | some (v, n) => if n = s.length then some v else none
   | none =>
-    let (neg, body) : Bool × Bytes := match s with
-      | 43 :: r => (false, r)
-      | 45 :: r => (true, r)
-      | r => (false, r)
     if s.isEmpty then none else
-    -- `i+2 < len(s) && s[i] == '0' && lower(s[i+1]) == 'x'`
-    let (hex, digits) : Bool × Bytes := match body with
-      | 48 :: c :: r => if lower20 c = 120 && !r.isEmpty then (true, r) else (false, body)
-      | _ => (false, body)
-    let (st, rest) := readMant hex digits {}
-    if !st.sawdigits then none else
-    let dp0 : Int := if st.sawdot then st.dp else st.nd
-    let dp1 : Int := if hex then dp0 * 4 else dp0
-    let expChar : UInt8 := if hex then 112 else 101
-    -- optional exponent
-    let tail : Option (Int × Bool × Bytes) :=
-      match rest with
-      | c :: r =>
-        if lower20 c = expChar then
-          match r with
-          | [] => none
-          | _ =>
-            let (esign, r2) : Int × Bytes := match r with
-              | 43 :: r' => (1, r')
-              | 45 :: r' => (-1, r')
-              | _ => (1, r)
-            match r2 with
-            | d :: _ =>
-              if isDigitB d then
-                let (e, u, r3) := readExpDigits r2 0 false
-                some (dp1 + (e : Int) * esign, u, r3)
-              else none
-            | [] => none
-        else if hex then none else some (dp1, false, rest)
-      | [] => if hex then none else some (dp1, false, rest)
-    match tail with
-    | none => none
-    | some (dp, u, rest2) =>
-      if !rest2.isEmpty then none
-      else if (st.underscores || u) && !underscoreOK s then none
-      else
-        match scaledValue hex st.mant st.nd dp with
-        | none => none
-        | some q =>
-          let x := ofRatS neg (if neg then -q else q)
-          if x.isInf then none else some x
+    let sb := splitSign s
+    let hp := hexPrefix sb.2
+    let mr := readMant hp.1 hp.2 {}
+    finishParse s sb.1 hp.1 mr.1 mr.2
 
 /-! ### formatting -/
 
